@@ -597,11 +597,21 @@ func (s *S3Proxy) UploadPart(ctx context.Context, input *s3.UploadPartInput) (*s
 		input.SSECustomerKeyMD5 = nil
 	}
 
+	body := &bodyErrReader{r: input.Body}
+	if input.Body != nil {
+		input.Body = body
+	}
+
 	// streaming backend is not seekable,
 	// use unsigned payload for streaming ops
 	output, err := s.client.UploadPart(ctx, input, s3.WithAPIOptions(
 		v4.SwapComputePayloadSHA256ForUnsignedPayloadMiddleware,
 	))
+	if err != nil {
+		if apiErr, ok := body.apiError(); ok {
+			return output, apiErr
+		}
+	}
 	return output, handleError(err)
 }
 
@@ -765,6 +775,11 @@ func (s *S3Proxy) PutObject(ctx context.Context, input s3response.PutObjectInput
 		input.Body = bytes.NewReader(nil)
 	}
 
+	body := &bodyErrReader{r: input.Body}
+	if input.Body != nil && (input.ContentLength == nil || *input.ContentLength != 0) {
+		input.Body = body
+	}
+
 	// streaming backend is not seekable,
 	// use unsigned payload for streaming ops
 	output, err := s.client.PutObject(ctx, &s3.PutObjectInput{
@@ -807,6 +822,9 @@ func (s *S3Proxy) PutObject(ctx context.Context, input s3response.PutObjectInput
 		v4.SwapComputePayloadSHA256ForUnsignedPayloadMiddleware,
 	))
 	if err != nil {
+		if apiErr, ok := body.apiError(); ok {
+			return s3response.PutObjectOutput{}, apiErr
+		}
 		return s3response.PutObjectOutput{}, handleError(err)
 	}
 
@@ -1524,6 +1542,31 @@ func (s *S3Proxy) ListBucketsAndOwners(ctx context.Context) ([]s3response.Bucket
 	}
 
 	return buckets, nil
+}
+
+// bodyErrReader remembers the error the request body ended with. The
+// frontend verifies the request (signature, payload hash, checksums) when
+// its body reader reaches the end; the sdk reports a failed body read as a
+// send failure, which would turn those refusals into internal errors.
+type bodyErrReader struct {
+	r   io.Reader
+	err error
+}
+
+func (b *bodyErrReader) Read(p []byte) (int, error) {
+	n, err := b.r.Read(p)
+	if err != nil && err != io.EOF && b.err == nil {
+		b.err = err
+	}
+	return n, err
+}
+
+func (b *bodyErrReader) apiError() (s3err.APIError, bool) {
+	var apiErr s3err.APIError
+	if b.err != nil && errors.As(b.err, &apiErr) {
+		return apiErr, true
+	}
+	return apiErr, false
 }
 
 func handleError(err error) error {
